@@ -23,6 +23,10 @@
 (*   <<"to", ms>> transport read timed out  <<"open">> <<"close">> <<"clk", s>> <<"reset">>      *)
 EXTENDS Integers, Sequences, FiniteSets, TLC, IOUtils
 
+(* part S only: TRUE selects the RESETTED handling of the tree before the two fix: commits of C14 (kept for the record:  *)
+(* "valueSet = false" in the init-response / reset-requested branches, as_error for any arbitration state but as_none)  *)
+CONSTANT OldResetHandling
+
 SYN == 170
 
 (***************************************************************************)
@@ -173,9 +177,12 @@ MonRv(m, res, sym, as, T) ==
       datOk == IF res \in {0, 1} THEN (~clean \/ m0.dat = <<<<sym, IF r = "won" THEN 0 ELSE 1>>>>) ELSE m0.dat = <<>>
       m1 == IF ~datOk THEN Fail(m0, "C14:data-notification-mismatch") ELSE m0
       m2 == [m1 EXCEPT !.call = <<"none", 0>>, !.dat = <<>>] IN
-  CASE res \in {0, 1} -> Deliver(m2, sym, r)
+  CASE res \in {0, 1} -> LET m3 == Deliver(m2, sym, r) IN
+                          \* RESULT_CONTINUE promises that another output can be delivered right away: at least one must be due
+                          IF res = 1 /\ m3.exp = <<>> THEN Fail(m3, "C14:continue-without-deliverable-output") ELSE m3
     [] res = 2 -> LET m3 == IF r # "none" THEN Fail(m2, "C14:arbitration-result-without-symbol") ELSE m2 IN
-                  IF T > 0 THEN Quiesce(m3) ELSE m3
+                  IF T > 0 THEN Quiesce(m3)
+                  ELSE Fail(m3, "C14:continue-without-deliverable-output")   \* recv(0) is only called after RESULT_CONTINUE
     [] OTHER   -> IF m2.closed THEN Resync(m2) ELSE Fail(m2, "C14:recv-error-on-open-transport")
 
 (* ---- notifications ---- *)
@@ -292,16 +299,17 @@ EnhLoop(c) ==
                         ELSE c IN
               EnhLoop([c2 EXCEPT !.val = dd, !.vs = TRUE, !.pos = @ + 2])
     [] cmd = RES_RESETTED ->
-         LET c1 == IF c.as # AS_NONE THEN [c EXCEPT !.as = AS_ERROR, !.d.am = SYN, !.d.ac = 0] ELSE c
+         LET c1 == IF (IF OldResetHandling THEN c.as # AS_NONE ELSE c.as = AS_RUNNING)
+                   THEN [c EXCEPT !.as = AS_ERROR, !.d.am = SYN, !.d.ac = 0] ELSE c
              c2 == [c1 EXCEPT !.d.il = 0, !.d.ip = 0] IN
          IF ~c2.d.rr /\ c2.d.rt = 0 /\ dd = c2.d.xf
-         THEN EnhLoop([c2 EXCEPT !.vs = FALSE, !.pos = @ + 2])             \* skip explicit response to init request
+         THEN EnhLoop([c2 EXCEPT !.vs = (IF OldResetHandling THEN FALSE ELSE @), !.pos = @ + 2])   \* skip explicit response to init request
          ELSE LET c3 == IF ~c2.d.rr /\ c2.d.rt = 0 THEN [c2 EXCEPT !.d.rr = TRUE] ELSE c2
                   c4 == [c3 EXCEPT !.d.xf = dd, !.ev = Append(@, EvNtf("reset", dd % 2, 0))] IN
               IF c4.d.rr
               THEN LET c5 == [c4 EXCEPT !.d.rr = FALSE]
                        c6 == IF dd % 2 = 1 THEN SReqInfo(c5, 0) ELSE c5 IN
-                   EnhLoop([c6 EXCEPT !.vs = FALSE, !.pos = @ + 2])
+                   EnhLoop([c6 EXCEPT !.vs = (IF OldResetHandling THEN FALSE ELSE @), !.pos = @ + 2])
               ELSE EnhLoop([SCancel(SClose(c4)) EXCEPT !.pos = @ + 2])     \* self-reset: close the transport
     [] cmd = RES_INFO ->
          LET c1 == IF c.d.il = 1 THEN [c EXCEPT !.d.il = dd + 1]
